@@ -929,7 +929,7 @@ def opwalk_scenarios(ctx, out, intern=None, stats=None):
             for pos, extra in ((1, False), (2, True)):
                 hs.append(opwalk_history(rng, 'f', params, steps, 3, pos, extra))
     hs.append(opwalk_history(rng, 'g', shape(1, 1), [['append', ['g', 1, 'int']], ['move', 2, 0], ['flip', 2], ['flip', 1]], 4, 2, False))
-    for _ in range(1500 if thorough else 150):
+    for _ in range(1500 if thorough else 100):
         params = shape(rng.randrange(3), rng.randrange(3))
         chainlen = rng.randint(2, 4)
         hs.append(opwalk_history(rng, rng.choice(OP_NAMES), params, random_walk(rng, params, rng.randint(3, 7)), chainlen,
@@ -977,7 +977,7 @@ def samename_scenarios(ctx, out, intern=None, stats=None):
     thorough = ctx.tier == 'thorough'
     rng = common.rng_for(ctx.seed, 'C12:samename')
     hs = [(h, cn, 'samename-systematic') for h, cn in samename_systematic()]
-    for j in range(6000 if thorough else 600):
+    for j in range(6000 if thorough else 360):
         g = [Gen, GenericGen, ViewsGen][j % 3](rng, 5, rng.randint(4, 9))
         cn = [[rng.choice(['Node', 'Node', 'Node', 'Item']), rng.choice([0, 1, 2])] for _ in range(5)]
         hs.append((g.history(), cn, 'samename-random'))
